@@ -41,6 +41,26 @@ Definition alloc (h : heap) (xs : list Z) (cap : nat) : heap * slice :=
   | _ => (h ++ [xs ++ repeat 0%Z (cap - length xs)], {| s_arr := length h; s_off := 0; s_len := length xs |})
   end.
 
+(* predicates handed to remove-if / delete-if *)
+Inductive pred := PEven | POdd | PLess (k : Z).
+Definition holds (p : pred) (z : Z) : bool :=
+  match p with PEven => Z.even z | POdd => Z.odd z | PLess k => (z <? k)%Z end.
+(* drop the first n elements satisfying p (all of them without a count) *)
+Fixpoint remove_n (p : pred) (n : option nat) (l : list Z) : list Z :=
+  match l with
+  | [] => []
+  | x :: l' =>
+      if holds p x
+      then match n with
+           | None => remove_n p None l'
+           | Some O => x :: remove_n p n l'
+           | Some (S m) => remove_n p (Some m) l'
+           end
+      else x :: remove_n p n l'
+  end.
+Definition remove_if (p : pred) (n : option nat) (fromEnd : bool) (l : list Z) : list Z :=
+  if fromEnd then rev (remove_n p n (rev l)) else remove_n p n l.
+
 Inductive op :=
 | OList (xs : list Z) (dst : var)                (* (setq dst (list x...)) *)
 | OCons (x : Z) (src dst : var)
@@ -66,7 +86,9 @@ Inductive op :=
 | ONconc (a b dst : var)
 | OSort (src dst : var)
 | ORemove (x : Z) (src dst : var)                (* remove and delete build a new list by appending *)
-| OMapcar (k : Z) (src dst : var).               (* (setq dst (mapcar (lambda (el) (+ el k)) src)) *)
+| OMapcar (k : Z) (src dst : var)                (* (setq dst (mapcar (lambda (el) (+ el k)) src)) *)
+| ORemoveIf (p : pred) (cnt : option nat) (fromEnd : bool) (src dst : var).
+                                                 (* (setq dst (remove-if / delete-if p src [:count n] [:from-end t])) *)
 
 (* insertion sort: the result of sorting integers by < is unique *)
 Fixpoint insert (x : Z) (l : list Z) : list Z :=
@@ -198,6 +220,10 @@ Definition step (st : state) (o : op) (cap : nat) : state :=
       end
   | ORemove x src dst => fresh st dst (filter (fun y => negb (Z.eqb x y)) (vcontents st src)) cap
   | OMapcar k src dst => fresh st dst (map (fun y => (y + k)%Z) (vcontents st src)) cap     (* make(len) *)
+  | ORemoveIf p n fe src dst =>
+      (* pkg/cl/delete-if.go inList (RemoveIf embeds DeleteIf): the kept elements are appended to a nil list,
+         from the end and reversed in that new list with :from-end; nil argument: nil *)
+      fresh st dst (remove_if p n fe (vcontents st src)) cap
   | ONconc a b dst =>
       (* an empty argument is skipped; otherwise append(a[:len:len], b...) (repo_fixes/C06-3) *)
       match vcontents st a, vcontents st b with
